@@ -76,6 +76,9 @@ func (w *warrior) Alive() bool {
 }
 
 func (w *warrior) ThreadCount() Address {
+	if w.pq == nil {
+		return 0
+	}
 	return w.pq.Len()
 }
 
